@@ -166,6 +166,18 @@ def run_case(case):
     treemode = spec.get('gravity') == 'tree' or spec.get('collision') in ('tree', 'linetree')
     shash = rt.state_hash_unordered if treemode else rt.state_hash
     counters['tree_mode_states'] = int(treemode)
+    # "synchronise for output" after the restore (what Simulationarchive.getSimulation does by default): with keep_unsynchronized=1 the
+    # restored run must still continue exactly like the uninterrupted original, which was never synchronised.  The particle array
+    # then legitimately differs (it is output, not state), so boundaries are compared on the rest of the persisted content.
+    poke = unsync and any(k_.endswith('keep_unsynchronized') and v_ for k_, v_ in spec.get('opts', {}).items()) and (case.get('k', 0) % 2 == 1)
+    if poke:
+        y.synchronize()
+        counters['restored_then_synchronized_for_output'] = 1
+
+        def shash(s_):
+            c_ = rt.sabin_sim(s_)
+            c_.pop('particles', None)
+            return rt.digest(c_)
     if not viol or case.get('continue_anyway'):
         try:
             explained = False
